@@ -36,8 +36,17 @@ def flatten(d, pre=()):
         if isinstance(v, dict):
             out += flatten(v, pre + (k,))
         else:
-            out.append([list(pre + (k,)), v if isinstance(v, str) else str(v)])
+            out.append([list(pre + (k,)), canon_value(v)])
     return out
+
+
+def canon_value(v):
+    """A (coerced) broadcast value as the text it was given as: '' / [] -> '', False -> 'False', ..."""
+    if isinstance(v, str):
+        return v
+    if isinstance(v, (list, tuple)):
+        return ', '.join(canon_value(x) for x in v)
+    return str(v)
 
 
 def store_entries(broadcasts):
@@ -94,6 +103,7 @@ class C22(Prop):
     trusted = [
         'value coercion (BroadcastConfigValidator), platform / run-mode checks of put_broadcast: environment; '
         'values are clean strings',
+        'values are compared as the text they were given as (lists joined, booleans as True/False); durations are not generated',
         'integer cycling: standardise_point_string drops leading zeros; other point syntaxes are not modelled',
         'the nested dictionaries are compared flattened (one entry per item); empty branches left in '
         'BroadcastMgr.broadcasts are not observed',
@@ -104,7 +114,7 @@ class C22(Prop):
         'the broadcast_events log table',
     ]
     rule = ('seeded random histories over 1-3 points (incl. "*", leading zeros, invalid), an inheritance tree of '
-            '5 namespaces, 1-2 level settings incl. multi-item dictionaries and keys containing brackets; every '
+            '5 namespaces, 1-2 level settings incl. multi-item dictionaries, keys containing brackets and values that are falsy after coercion (empty string, empty list, False); every '
             'history ends with flush/restart and get for every task; non-trivial = at least one put that '
             'modified something plus a clear/expire/restart; class = kinds of operations that had an effect')
     workers = 16
@@ -314,6 +324,13 @@ class C22(Prop):
                      put(['1'], ['root'], S(script='b')), {'op': 'restart'},
                      {'op': 'clear', 'points': None, 'ns': None, 'cancel': None}, put(['01'], ['root', 'nope'], S(script='c')),
                      {'op': 'restart'}] + self.gets()),
+            # values that are falsy after coercion survive a clear / expire aimed at something else, and a restart
+            self.mk([put(['1', '*'], ['root'], S(script=''), S(environment={'A': ''}), S(**{'execution retry delays': ''}),
+                         S(simulation={'fail try 1 only': 'False'}), S(**{'pre-script': 'p'})),
+                     put(['2'], ['t1'], S(script='x')), {'op': 'flush'},
+                     {'op': 'clear', 'points': None, 'ns': None, 'cancel': [S(**{'pre-script': 'zz'})]},
+                     {'op': 'expire', 'cutoff': 1}, {'op': 'clear', 'points': ['2'], 'ns': None, 'cancel': None},
+                     {'op': 'restart'}] + self.gets()),
             # bad points and namespaces
             self.mk([put(['x', '1', '*', 'all-cycles'], ['nope', 't2'], S(script='a'))] + self.gets()),
             # multi-item dictionary, restart (finding witness on the unrepaired code)
@@ -323,10 +340,15 @@ class C22(Prop):
     def rand_setting(self, rng, multi_ok=True, brackets=False):
         def leaf():
             r = rng.random()
+            # values that are falsy once coerced ('' / [] / False) must survive clears of other items
+            if r < 0.07:
+                return ('execution retry delays',), ''
+            if r < 0.14:
+                return ('simulation', 'fail try 1 only'), rng.choice(['False', 'True'])
             if r < 0.4:
-                return (rng.choice(ITEMS[:3]),), rng.choice(['a', 'b', 'c'])
+                return (rng.choice(ITEMS[:3]),), rng.choice(['a', 'b', 'c', '', ''])
             if r < 0.85:
-                return ('environment', rng.choice(['A', 'B', 'C'])), rng.choice(['1', '2', '3'])
+                return ('environment', rng.choice(['A', 'B', 'C'])), rng.choice(['1', '2', '3', ''])
             sec = rng.choice(['directives', 'meta'])
             key = rng.choice(['-l', 'x', 'title'])
             if brackets and rng.random() < 0.5:
